@@ -5,7 +5,7 @@ set -u
 PATCH=$(readlink -f "$1"); shift
 D=$(mktemp -d /tmp/govc-mut.XXXXXX)
 git -C /repo worktree add -q --detach "$D" HEAD >/dev/null 2>&1
-for f in schema/verif_contracts.go schema/verif_instances.go atp/verif_contracts.go cmd/arcaflow-codegen/verif_contracts.go; do mkdir -p "$D/$(dirname $f)";
+for f in schema/verif_contracts.go schema/verif_instances.go schema/verif_harness.go atp/verif_contracts.go atp/verif_harness.go cmd/arcaflow-codegen/verif_contracts.go; do mkdir -p "$D/$(dirname $f)";
   [ -f /repo/$f ] && cp /repo/$f "$D/$f"
 done
 if ! git -C "$D" apply "$PATCH" 2>/tmp/mutcheck.err; then echo "PATCH DOES NOT APPLY: $(cat /tmp/mutcheck.err)"; git -C /repo worktree remove --force "$D"; exit 2; fi
